@@ -322,6 +322,70 @@ theorem using_default_in_window (cls c : Cls) (a : UsingArgs) (hok : ClsOK cls) 
         have := hcok.mx y hcm
         by_cases hy : y = 0 <;> simp [hcm, eff, hy] at hb; omega
 
+theorem normInt_strict_ok (lo : Int) (hi : Option Int) (v k : Int) (h : normInt lo hi v false = .ok k) :
+    k = v ∧ lo ≤ v ∧ ∀ b, eff hi = some b → v ≤ b := by
+  unfold normInt at h
+  by_cases h1 : v < lo
+  · simp [h1] at h
+  · simp only [h1, if_false] at h
+    cases he : eff hi with
+    | none => simp only [he, Except.ok.injEq] at h; exact ⟨h.symm, by omega, by intro b hb; cases hb⟩
+    | some b =>
+      simp only [he] at h
+      by_cases h2 : v > b
+      · simp [h2] at h
+      · simp only [h2, if_false, Except.ok.injEq] at h
+        exact ⟨h.symm, by omega, by intro b' hb'; cases hb'; omega⟩
+
+/-- `generateChecked` succeeds only with the value `_generate_rounds` produced, and only inside the hard limits -/
+theorem generateChecked_ok (c : Cls) (draw : Nat) (fv : Int) (k : Int) (h : generateChecked c draw fv = .ok k) :
+    generateRounds c draw fv = .ok k ∧ c.hardMin ≤ k ∧ ∀ b, eff c.hardMax = some b → k ≤ b := by
+  unfold generateChecked at h
+  cases hg : generateRounds c draw fv with
+  | error e => simp [hg] at h
+  | ok r =>
+    simp only [hg, normRounds] at h
+    obtain ⟨rfl, h2, h3⟩ := normInt_strict_ok _ _ _ _ h
+    exact ⟨rfl, h2, h3⟩
+
+theorem hardLo_ge (c : Cls) (x : Int) : x ≤ hardLo c x ∧ c.hardMin ≤ hardLo c x := by
+  unfold hardLo; omega
+theorem hardHi_le (c : Cls) (x : Int) : hardHi c x ≤ x ∧ ∀ b, eff c.hardMax = some b → hardHi c x ≤ b := by
+  unfold hardHi
+  cases he : eff c.hardMax with
+  | none => exact ⟨Int.le_refl _, by intro b hb; cases hb⟩
+  | some h => exact ⟨by simp only; omega, by intro b hb; cases hb; simp only; omega⟩
+
+/-- the value `_generate_rounds` draws lies between the two ends of `_calc_vary_rounds_range` -/
+theorem generate_between (c : Cls) (hodd : c.forceOdd = false) (draw : Nat) (fv r : Int)
+    (h : generateRounds c draw fv = .ok r) :
+    ∃ d, c.defaultRounds = some d ∧
+      (r = d ∨ ((varyRange c d fv).1 ≤ r ∧ r ≤ (varyRange c d fv).2 ∧ (varyRange c d fv).1 ≤ d ∧ d ≤ (varyRange c d fv).2)) := by
+  unfold generateRounds at h
+  cases hd : c.defaultRounds with
+  | none => simp [hd] at h
+  | some d =>
+    refine ⟨d, rfl, ?_⟩
+    simp only [hd, hodd, Bool.false_eq_true, if_false] at h
+    by_cases hv : varyTruthy c.vary = true
+    · simp only [hv, if_true] at h
+      generalize (varyRange c d fv).1 = lo at *
+      generalize (varyRange c d fv).2 = up at *
+      by_cases hass : lo ≤ d ∧ d ≤ up
+      · by_cases hlt : lo < up
+        · simp only [hass, hlt, and_self, if_true, Except.map, Except.ok.injEq] at h
+          have hmod : ((draw % (up - lo + 1).toNat : Nat) : Int) < up - lo + 1 := by
+            have := Nat.mod_lt draw (show 0 < (up - lo + 1).toNat by omega)
+            omega
+          right; omega
+        · simp only [hass, hlt, and_self, if_true, if_false, Except.map, Except.ok.injEq] at h
+          left; exact h.symm
+      · simp only [hass, if_false, Except.map] at h
+        cases h
+    · have hv' : varyTruthy c.vary = false := by simpa using hv
+      simp only [hv', Bool.false_eq_true, if_false, Except.map, Except.ok.injEq] at h
+      left; exact h.symm
+
 /-- a hasher with an ordered window and an in-window default never produces a cost its own
     update check flags — for every value of the random draw and of the float-percentage atom -/
 theorem generate_in_window (c : Cls) (hw : WindowOK c.minDesired c.maxDesired) (hodd : c.forceOdd = false)
@@ -330,46 +394,49 @@ theorem generate_in_window (c : Cls) (hw : WindowOK c.minDesired c.maxDesired) (
     (draw : Nat) (fv : Int) (r : Int) (h : generateRounds c draw fv = .ok r) :
     InWindow c.minDesired c.maxDesired r ∧ needsUpdate c r = false := by
   have key : InWindow c.minDesired c.maxDesired r := by
-    unfold generateRounds at h
-    cases hd : c.defaultRounds with
-    | none => simp [hd] at h
-    | some d =>
-      simp only [hd, hodd, Bool.false_eq_true, if_false] at h
-      have hdw := hdef d hd
-      by_cases hv : varyTruthy c.vary = true
-      · simp only [hv, if_true] at h
-        split at h
-        · cases h
-        · simp only [varyRange, clipToDesired] at h
-          have hl := clipWin_inWindow c.minDesired c.maxDesired hw (d - varyAmount c fv) hmn hmx
-          have hu := clipWin_inWindow c.minDesired c.maxDesired hw (d + varyAmount c fv) hmn hmx
-          by_cases hass : clipWin c.minDesired c.maxDesired (d - varyAmount c fv) ≤ d ∧
-              d ≤ clipWin c.minDesired c.maxDesired (d + varyAmount c fv)
-          · by_cases hlt : clipWin c.minDesired c.maxDesired (d - varyAmount c fv) <
-                clipWin c.minDesired c.maxDesired (d + varyAmount c fv)
-            · simp only [hass, hlt, and_self, if_true, Except.map, Except.ok.injEq] at h
-              have hpos : 0 < clipWin c.minDesired c.maxDesired (d + varyAmount c fv) -
-                  clipWin c.minDesired c.maxDesired (d - varyAmount c fv) + 1 := by omega
-              have hmod : ((draw % (clipWin c.minDesired c.maxDesired (d + varyAmount c fv) -
-                  clipWin c.minDesired c.maxDesired (d - varyAmount c fv) + 1).toNat : Nat) : Int) <
-                  clipWin c.minDesired c.maxDesired (d + varyAmount c fv) -
-                  clipWin c.minDesired c.maxDesired (d - varyAmount c fv) + 1 := by
-                have := Nat.mod_lt draw (show 0 < (clipWin c.minDesired c.maxDesired (d + varyAmount c fv) -
-                  clipWin c.minDesired c.maxDesired (d - varyAmount c fv) + 1).toNat by omega)
-                omega
-              refine ⟨fun x hx => ?_, fun x hx => ?_⟩
-              · have := hl.1 x hx; omega
-              · have := hu.2 x hx; omega
-            · simp only [hass, hlt, and_self, if_true, if_false, Except.map, Except.ok.injEq] at h
-              subst h; exact hdw
-          · simp only [hass, if_false, Except.map] at h
-            cases h
-      · have hv' : varyTruthy c.vary = false := by simpa using hv
-        simp only [hv', Bool.false_eq_true, if_false, Except.map, Except.ok.injEq] at h
-        subst h; exact hdw
+    obtain ⟨d, hd, hr⟩ := generate_between c hodd draw fv r h
+    have hdw := hdef d hd
+    rcases hr with rfl | ⟨h1, h2, h3, h4⟩
+    · exact hdw
+    · simp only [varyRange, clipToDesired] at h1 h2 h3 h4
+      have hl := clipWin_inWindow c.minDesired c.maxDesired hw (d - varyAmount c fv) hmn hmx
+      have hu := clipWin_inWindow c.minDesired c.maxDesired hw (d + varyAmount c fv) hmn hmx
+      have a1 := (hardLo_ge c (clipWin c.minDesired c.maxDesired (d - varyAmount c fv))).1
+      have a2 := (hardHi_le c (clipWin c.minDesired c.maxDesired (d + varyAmount c fv))).1
+      refine ⟨fun x hx => ?_, fun x hx => ?_⟩
+      · have := hl.1 x hx; omega
+      · have := hu.2 x hx; omega
   refine ⟨key, ?_⟩
   unfold needsUpdate
   simp only [hodd, Bool.false_and, Bool.false_or]
   exact (outsideWin_iff _ _ r).2 key
+
+/-- the drawn value never leaves the hard limits when the default is inside them: `hash()` cannot fail on
+    its own generated cost -/
+theorem generate_in_hard (c : Cls) (hodd : c.forceOdd = false) (draw : Nat) (fv r : Int)
+    (hdef : ∀ d, c.defaultRounds = some d → c.hardMin ≤ d ∧ ∀ b, eff c.hardMax = some b → d ≤ b)
+    (h : generateRounds c draw fv = .ok r) :
+    c.hardMin ≤ r ∧ ∀ b, eff c.hardMax = some b → r ≤ b := by
+  obtain ⟨d, hd, hr⟩ := generate_between c hodd draw fv r h
+  have hdh := hdef d hd
+  rcases hr with rfl | ⟨h1, h2, _, _⟩
+  · exact hdh
+  · simp only [varyRange] at h1 h2
+    have a1 := (hardLo_ge c (clipToDesired c (d - varyAmount c fv))).2
+    have a2 := (hardHi_le c (clipToDesired c (d + varyAmount c fv))).2
+    exact ⟨by omega, fun b hb => by have := a2 b hb; omega⟩
+
+theorem generateChecked_eq (c : Cls) (hodd : c.forceOdd = false) (draw : Nat) (fv r : Int)
+    (hdef : ∀ d, c.defaultRounds = some d → c.hardMin ≤ d ∧ ∀ b, eff c.hardMax = some b → d ≤ b)
+    (h : generateRounds c draw fv = .ok r) : generateChecked c draw fv = .ok r := by
+  obtain ⟨h1, h2⟩ := generate_in_hard c hodd draw fv r hdef h
+  unfold generateChecked normRounds normInt
+  simp only [h]
+  have : ¬ r < c.hardMin := by omega
+  simp only [this, if_false]
+  cases he : eff c.hardMax with
+  | none => rfl
+  | some b => have := h2 b he; have : ¬ r > b := by omega
+              simp only [this, if_false]
 
 end Lemmas.Rounds
